@@ -329,7 +329,7 @@ class HMat:
         return HMat(self.p)
 
     def has_attr(self, name):
-        return name in ("shape", "ndim", "dtype", "copy")
+        return name in ("shape", "ndim", "dtype", "copy", "reshape")
 
     def getitem(self, idx):
         """Sub-blocks of an abstract matrix are only shapes (their entries are not modelled)."""
@@ -361,7 +361,31 @@ class HMat:
     def __mul__(self, s):
         if is_reallike(s):
             return HMat(self.p.scale(s))
+        c = getattr(s, "c", None)
+        if type(s).__name__ == "QScal" and all(isinstance(x, (int, Fraction)) and x == 0 for x in c[1:]):
+            return HMat(self.p.scale(c[0]))        # a real quaternion scalar is central
         raise OutOfReach("element-wise product of abstract quaternion matrices")
+
+    def reshape(self, *shape):
+        """Only the reshapes that keep the entries in place: (r, c) -> (r, c), and a column (n, 1) -> (n,)
+        (recorded; the 1-D view carries the same polynomial and remembers its source)."""
+        if len(shape) == 1 and isinstance(shape[0], tuple):
+            shape = shape[0]
+        from .nc import dims_equal
+        if len(shape) == 2:
+            dims_equal(self.p.rows, shape[0], "reshape.rows")
+            dims_equal(self.p.cols, shape[1], "reshape.cols")
+            out = HMat(self.p)
+            out.reshaped_from = getattr(self, "reshaped_from", self)
+            return out
+        if len(shape) == 1:
+            dims_equal(self.p.cols, 1, "reshape.column")
+            dims_equal(self.p.rows, shape[0], "reshape.rows")
+            out = HMat(self.p)
+            out.reshaped_from = getattr(self, "reshaped_from", self)
+            out.one_dim = True
+            return out
+        raise OutOfReach(f"reshape{shape} of an abstract quaternion matrix")
 
     __rmul__ = __mul__
 
@@ -480,6 +504,8 @@ class SymList:
     def getitem(self, i):
         if isinstance(i, int) and i < 0 and -i <= len(self.items):
             return self.items[i]
+        if isinstance(i, int) and i < 0 and self.entry is not None:
+            return self.entry(self.prefix_len + len(self.items) + i)
         raise OutOfReach("read of an abstract list entry")
 
     def length(self):
